@@ -562,7 +562,7 @@ CHECKS["C06"] = dict(
     parts=[
         dict(name="roundrobin", test="TestRoundRobin", kind="rapid", checks={"quick": 3000, "thorough": 100000}, shards=4, timeout={"quick": 600, "thorough": 3000}),
         dict(name="pick", test="TestPick", kind="rapid", checks={"quick": 20000, "thorough": 1000000}, shards=4, timeout={"quick": 600, "thorough": 3000}),
-        dict(name="e2e", test="TestE2E", kind="rapid", checks={"quick": 100, "thorough": 3000}, shards=16, timeout={"quick": 900, "thorough": 3400}, shrinktime="60s", gomaxprocs=4, crash_is_violation=True),
+        dict(name="e2e", test="TestE2E", kind="rapid", checks={"quick": 100, "thorough": 1500}, shards=16, timeout={"quick": 900, "thorough": 3400}, shrinktime="60s", gomaxprocs=4, crash_is_violation=True),
     ],
 )
 
